@@ -2,6 +2,7 @@ package main
 
 import (
 	"fmt"
+	mocker "github.com/tencent/goom"
 	"reflect"
 	"runtime"
 	"sort"
@@ -9,6 +10,7 @@ import (
 
 	"github.com/tencent/goom/internal/unexports2"
 	"github.com/tencent/goom/verifharness/hxlib"
+	"github.com/tencent/goom/verifharness/zoo/fnzoo"
 	"github.com/tencent/goom/verifharness/zoo/varzoo"
 )
 
@@ -88,12 +90,12 @@ func c10(args []string) int {
 		}()})
 	// ---- functions the program knows by value
 	known := map[string]uintptr{
-		"main.c10Known":            reflect.ValueOf(c10Known).Pointer(),
-		"main.(*c10T).ptrMethod":   reflect.ValueOf((*c10T).ptrMethod).Pointer(),
-		"runtime.GC":               reflect.ValueOf(runtime.GC).Pointer(),
-		"strings.Repeat":           reflect.ValueOf(strings.Repeat).Pointer(),
-		"fmt.Sprint":               reflect.ValueOf(fmt.Sprint).Pointer(),
-		"sort.Strings":             reflect.ValueOf(sort.Strings).Pointer(),
+		"main.c10Known":          reflect.ValueOf(c10Known).Pointer(),
+		"main.(*c10T).ptrMethod": reflect.ValueOf((*c10T).ptrMethod).Pointer(),
+		"runtime.GC":             reflect.ValueOf(runtime.GC).Pointer(),
+		"strings.Repeat":         reflect.ValueOf(strings.Repeat).Pointer(),
+		"fmt.Sprint":             reflect.ValueOf(fmt.Sprint).Pointer(),
+		"sort.Strings":           reflect.ValueOf(sort.Strings).Pointer(),
 	}
 	for name, want := range known {
 		a, cls := c10Find(name, false)
@@ -265,6 +267,30 @@ func c10(args []string) int {
 				}
 			}
 		}
+	}
+	// ---- by-name resolution THROUGH a mocker object that is reused for another method name: each name must reach its own symbol
+	{
+		pkg := "github.com/tencent/goom/verifharness/zoo/fnzoo"
+		tt := &fnzoo.T{K: 1}
+		as := func(_ *fnzoo.T, a int) int { return 0 }
+		rec := map[string]interface{}{"kind": "mocker-resolve", "mode": mode}
+		func() {
+			defer func() {
+				if e := recover(); e != nil {
+					rec["panic"] = trunc(fmt.Sprint(e), 120)
+				}
+			}()
+			m := mocker.NewUnexportedMethodMocker(pkg, "(*T)")
+			m.Method("um1").As(as).Return(11)
+			rec["um1_mocked"] = tt.CallUm1(0)
+			m.Cancel()
+			rec["um1_after_cancel"] = tt.CallUm1(0)
+			m.Method("um2").As(as).Return(22)
+			rec["um2_mocked"], rec["um1_meanwhile"] = tt.CallUm2(0), tt.CallUm1(0)
+			m.Cancel()
+			rec["um2_after_cancel"], rec["um1_end"] = tt.CallUm2(0), tt.CallUm1(0)
+		}()
+		out.Put(rec)
 	}
 	out.Put(map[string]interface{}{"kind": "history", "mode": mode, "steps": hsteps, "inconsistent": inconsistent, "absent_resolved": resolvedLater, "first": firstHist})
 	return 0
